@@ -111,7 +111,7 @@ def validate_shards(paths, module="FixTrace", heap="3g", timeout=3600, parallel=
 
 def model_check(module, cfg, workers=16, timeout=3600, extra=(), heap="8g", name=None):
     """design-level run: returns TlcResult (ok = no error found)"""
-    md = os.path.join(VERIF, ".work", "meta_" + (name or (module + "_" + os.path.basename(cfg))))
+    md = os.path.join(os.environ.get("VSG_VERIF_SCRATCH") or VERIF, ".work", "meta_" + (name or (module + "_" + os.path.basename(cfg))))
     shutil.rmtree(md, ignore_errors=True)
     cmd = tlc_cmd(os.path.join(SPEC, module + ".tla"), os.path.join(SPEC, cfg), workers, md, extra=extra, heap=heap)
     t0 = time.time()
